@@ -86,6 +86,19 @@ def main():
     if lb is None or "RelativeLocationPath" not in lb:
         print("LocationPath() not found / reshaped"); return 1
     requires_step = "ExpectedNodeTest" in lb
+    eb = body_of(proc, r"XPathProcessorImpl::EqualityExpr\s*\(")
+    rb = body_of(proc, r"XPathProcessorImpl::RelationalExpr\s*\(")
+    tb = body_of(proc, r"XPathProcessorImpl::tokenize\s*\(")
+    if eb is None or rb is None or tb is None:
+        print("EqualityExpr / RelationalExpr / tokenize not found"); return 1
+    old_eq = re.search(r"lookahead\s*\(\s*XalanUnicode::charEqualsSign\s*,\s*1\s*\)", eb) is not None
+    new_eq = re.search(r"m_token\.length\(\)\s*==\s*2", eb) is not None
+    old_rel = len(re.findall(r"tokenIs\s*\(\s*XalanUnicode::charEqualsSign\s*\)", rb)) == 2
+    new_rel = len(re.findall(r"m_token\.length\(\)\s*==\s*2", rb)) == 2
+    new_tok = re.search(r"pat\[theEnd\]\s*==\s*XalanUnicode::charEqualsSign", tb) is not None
+    if not ((old_eq and old_rel and not new_tok and not new_eq and not new_rel) or (new_eq and new_rel and new_tok and not old_eq and not old_rel)):
+        print("operator tokenization: EqualityExpr/RelationalExpr/tokenize are in a mixed or unknown state"); return 1
+    compound = new_tok
     os.makedirs(common.GEN, exist_ok=True)
     out = os.path.join(common.GEN, "C02_Flags.lean")
     txt = ("/- GENERATED by translate/c02_flags.py from XPathProcessorImpl.cpp (UnaryExpr) and XObject.cpp (comparison methods). Do not edit. -/\n"
@@ -102,8 +115,10 @@ def main():
            "def divideSignAware : Bool := %s\n\n"
            "/-- `LocationPath()` reports an error when a relative path has no step (empty token or `)`) -/\n"
            "def locationPathRequiresStep : Bool := %s\n\n"
+           "/-- `!=`, `<=`, `>=` are single tokens (emitted only when the two characters are adjacent) -/\n"
+           "def compoundOperatorTokens : Bool := %s\n\n"
            "end XalanModel.Generated.C02\n") % ("true" if calls_unary else "false", "true" if all(have) else "false", "true" if resets else "false",
-                                                   "true" if mod_fmod else "false", "true" if div_new else "false", "true" if requires_step else "false")
+                                                   "true" if mod_fmod else "false", "true" if div_new else "false", "true" if requires_step else "false", "true" if compound else "false")
     if not os.path.exists(out) or open(out).read() != txt:
         open(out, "w").write(txt)
     print("C02_Flags.lean: unaryRecursesIntoUnary=%s identityShortcuts=%s" % (calls_unary, all(have)))
